@@ -85,6 +85,8 @@ FAULTS = {
     'space_in_selector': ("c16.f z = 1", SyntaxError, 'syntax'),
     'no_equals': ("c16.f.z 1", SyntaxError, 'syntax'),
     # a line whose very first token cannot be tokenized (the parser reads one token ahead of each statement)
+    'untokenizable_line_after_comment': ("# a comment line\n\n   # another, indented\n\x00c16.f.z = 1", (SyntaxError, tokenize.TokenError, SystemError), 'syntax'),
+    'unterminated_string_after_blank': ("\n\n'''never closed", (SyntaxError, tokenize.TokenError), 'syntax'),
     'untokenizable_line': ("\x00c16.f.z = 1", (SyntaxError, tokenize.TokenError, SystemError), 'syntax'),  # SystemError: CPython 3.12 tokenizer, NUL right after a dedent
     'unknown_param': ("c16.f.nope = 1", ValueError, 'semantic'),
     'unknown_param_multiline': ("c16.f.nope = [1,\n  2,\n  3]", ValueError, 'semantic'),
@@ -95,6 +97,10 @@ FAULTS = {
     'bad_import_continued': ("import \\\n    no_such_module_c16", ImportError, 'semantic'),
     'unknown_configurable': ("c16.nofn.z = 1", ValueError, 'semantic'),
     'unknown_reference': ("c16.f.z = @c16.nonexistent()", ValueError, 'semantic'),
+    # the offending source line is quoted in the message: whatever characters it contains (str.format metacharacters)
+    'unknown_reference_in_dict': ("c16.f.z = {'k': @c16.nonexistent()}", ValueError, 'semantic'),
+    'unknown_reference_brace_comment': ("c16.f.z = @c16.nonexistent()  # {0} {x} }{ %s %(y)s", ValueError, 'semantic'),
+    'ambiguous_constant_braces': ("c16.f.z = [{}, %AMBIG, {'a': {}}]", ValueError, 'semantic'),
     'denylisted': ("c16.deny.x = 1", ValueError, 'semantic'),
     'bad_include': ("include 'missing.gin'", IOError, 'semantic'),
     'bad_import': ("import no_such_module_c16", ImportError, 'semantic'),
